@@ -41,7 +41,8 @@ impl Log {
         let mut response_body_length = 0;
         let mut response_body_parts_number = 0;
         for content_range in &response.content_range_list {
-            let boxed_parse = content_range.size.parse::<i32>();
+            // the total may exceed i32 (many ranges of a large file), sum as i128
+            let boxed_parse = content_range.size.parse::<i128>();
             if boxed_parse.is_ok() {
                 response_body_length += boxed_parse.unwrap();
                 response_body_parts_number += 1;
